@@ -199,6 +199,16 @@ func c08Families() []c08Family {
 		o := o
 		text("cte-nested-mixed-"+o, func(n int) string { return strings.Repeat(o, n) })
 	}
+	// valid nesting (within the depth limit when n <= 1000; the scale is capped below)
+	for _, oc := range [][2]string{{"@a{", "}"}, {"[", "]"}, {"{1=", "}"}, {"(1 ", ")"}, {"[@a{", "}]"}} {
+		oc := oc
+		text("cte-valid-nested-"+oc[0], func(n int) string {
+			if n > 240 {
+				n = 240 // 4n stays below MaxContainerDepth
+			}
+			return "@a<\"x\"> " + strings.Repeat(oc[0], n) + "1" + strings.Repeat(oc[1], n)
+		})
+	}
 	text("cte-nested-closed", func(n int) string { return strings.Repeat("[", n) + strings.Repeat("]", n) })
 	text("cte-many-ints", func(n int) string { return "[" + strings.Repeat("1 ", n) + "]" })
 	text("cte-many-strings", func(n int) string { return "[" + strings.Repeat("\"a\" ", n) + "]" })
@@ -364,10 +374,12 @@ func runC08(r *Run) {
 				}
 			}
 			var m0, m1 runtime.MemStats
+			r.noteCurrent(idx, fmt.Sprintf("Reader.ReadBytes(%d) over a %d-byte document delivered %v bytes per Read", count, docLen, sched), nil)
 			source := &chunkReader{data: make([]byte, docLen), sched: sched}
 			runtime.ReadMemStats(&m0)
 			data, bufCap, err := cbe.VerifReadBytes(source, count)
 			runtime.ReadMemStats(&m1)
+			r.clearCurrent()
 			if alloc := m1.TotalAlloc - m0.TotalAlloc; alloc > 4*uint64(docLen)+uint64(len(data))+1<<16 {
 				r.out.Finding("C08", "reader:alloc-exceeds-arrived", fmt.Sprintf("ReadBytes(%d) over a %d-byte document allocated %d bytes (more than 4 x arrived + the copy + 64 KiB)", count, docLen, alloc), fmt.Sprintf("count=%d docLen=%d", count, docLen))
 			}
